@@ -489,3 +489,20 @@ func seedFromEnv() int {
 }
 
 func (c *Ctx) posOf(p token.Pos) string { return c.rel(p) }
+
+// scale is the tier's budget multiplier: thorough doubles the prover's join-split budget, the
+// number of calling contexts tried and the number of wire paths enumerated per codec function.
+func (c *Ctx) scale() int {
+	if c.Tier == "thorough" {
+		return 2
+	}
+	return 1
+}
+
+// e1Depth is the callee-descent depth of the panic-freedom engine for the tier.
+func (c *Ctx) e1Depth() int {
+	if c.Tier == "thorough" {
+		return 3
+	}
+	return 2
+}
